@@ -74,6 +74,12 @@ func (bucket *Bucket) _closeSqliteDB() {
 	for _, c := range bucket.collections {
 		c.close()
 	}
+	// feeds are shared by all handles of the bucket: stop the ones started through other handles too
+	for _, feeds := range bucket.collectionFeeds {
+		for _, feed := range feeds {
+			feed.close()
+		}
+	}
 	if bucket.sqliteDB != nil {
 		bucket.sqliteDB.Close()
 		bucket.collections = nil
